@@ -349,13 +349,20 @@ func Main(p Property, o Options) *Report {
 			if d := firstDiff(implOut[i], m); d >= 0 {
 				mm := Mismatch{Case: c, Minimized: c, Impl: implOut[i], Model: m, FirstDiff: d}
 				if len(rep.Mismatches) < 10 {
+					// anchored: the minimised sequence must still disagree first at the SAME operation line, so
+					// that shrinking cannot drift to an unrelated disagreement on inputs no generator produces
+					origOp := ""
+					if d < len(c.Ops) {
+						origOp = c.Ops[d]
+					}
 					mm.Minimized = shrink(c, func(cc Case) bool {
 						io, _ := safeRun(p, cc)
 						mo, err := RunModel(o.LDriver, p.ID(), []Case{cc})
 						if err != nil {
 							return false
 						}
-						return firstDiff(io, canon(p, cc, mo[0])) >= 0
+						dd := firstDiff(io, canon(p, cc, mo[0]))
+						return dd >= 0 && (origOp == "" || (dd < len(cc.Ops) && cc.Ops[dd] == origOp))
 					})
 					io, _ := safeRun(p, mm.Minimized)
 					mo, err := RunModel(o.LDriver, p.ID(), []Case{mm.Minimized})
